@@ -486,6 +486,19 @@ def u_c09t():
     return u.finish()
 
 
+def u_many():
+    """One author with several hundred events (more than any plausible internal page or result ceiling) and a second author:
+    queries without a limit return all of them, vanish removes all of them.  Used with fixed histories only (no edge cover)."""
+    u = Universe("many", nauthors=2, nabsent=1)
+    A, B = 1, 2
+    for i in range(1, 521):
+        u.add(A, 1, i, [["t", "x"]] if i % 2 == 0 else [], clen=i % 7)
+    u.add(B, 1, 600, [["t", "x"]], clen=3)
+    u.add(B, 1, 5, [], clen=4)
+    u.add(B, 1059, 601, [["p", ("pk", A)]], clen=5)
+    return u.finish()
+
+
 def u_c11b():
     """Deletion requests with several targets where an earlier-listed address is already covered, and addresses
     whose d value contains the ':' separator."""
@@ -595,7 +608,7 @@ def u_exp(now):
     return u.finish()
 
 
-CURATED = dict(c09t=u_c09t, c10e=u_c10e, c12y=u_c12y, c14b=u_c14b, c10d=u_c10d, qv=u_qv, c09c=u_c09c, c10c=u_c10c, c16=u_c16, c11b=u_c11b, c12x=u_c12x, c09b=u_c09b, c10b=u_c10b, sz=u_sz, core=u_core, c09=u_c09, c10=u_c10, c11=u_c11, c18=u_c18, q=u_q)
+CURATED = dict(many=u_many, c09t=u_c09t, c10e=u_c10e, c12y=u_c12y, c14b=u_c14b, c10d=u_c10d, qv=u_qv, c09c=u_c09c, c10c=u_c10c, c16=u_c16, c11b=u_c11b, c12x=u_c12x, c09b=u_c09b, c10b=u_c10b, sz=u_sz, core=u_core, c09=u_c09, c10=u_c10, c11=u_c11, c18=u_c18, q=u_q)
 
 
 # ------------------------------------------------------------------------------------------------
